@@ -235,7 +235,13 @@ func (w *worker) execReader(i int, th Thread, conc bool) []string {
 var writerTypes = []struct {
 	name string
 	dt   hdf5.Datatype
-}{{"f64", hdf5.Float64}, {"f32", hdf5.Float32}, {"i32", hdf5.Int32}, {"i64", hdf5.Int64}, {"u8", hdf5.Uint8}}
+}{{"f64", hdf5.Float64}, {"f32", hdf5.Float32}, {"i32", hdf5.Int32}, {"i64", hdf5.Int64}, {"u8", hdf5.Uint8},
+	// types whose description depends on creation options (string size, array dims): the registry entry that serves
+	// them is shared by every writer in the process
+	{"str", hdf5.String}, {"arr", hdf5.ArrayInt32}}
+
+// typeParam: string size / array length chosen by the op (1..9), different from writer to writer.
+func typeParam(b int) int { return 1 + ((b%9)+9)%9 }
 
 func seqValue(seed, k int) uint64 {
 	x := uint64(seed)*0x9E3779B97F4A7C15 + uint64(k)*0xBF58476D1CE4E5B9 + 1
@@ -247,6 +253,18 @@ func seqValue(seed, k int) uint64 {
 
 func datasetValues(ti, n, seed int) any {
 	switch writerTypes[ti].name {
+	case "str":
+		v := make([]string, n)
+		for k := range v {
+			v[k] = fmt.Sprintf("%016x", seqValue(seed, k))[:1+k%typeParam(seed)]
+		}
+		return v
+	case "arr":
+		v := make([]int32, n*typeParam(seed))
+		for k := range v {
+			v[k] = int32(seqValue(seed, k))
+		}
+		return v
 	case "f64":
 		v := make([]float64, n)
 		for k := range v {
@@ -351,6 +369,12 @@ func (w *worker) execWriter(i int, th Thread, tag string, conc bool) []string {
 				var opts []hdf5.DatasetOption
 				if op.B%3 == 0 && n >= 4 {
 					opts = append(opts, hdf5.WithChunkDims([]uint64{uint64(n/2 + 1)}))
+				}
+				switch writerTypes[ti].name {
+				case "str":
+					opts = append(opts, hdf5.WithStringSize(uint32(typeParam(op.B))))
+				case "arr":
+					opts = append(opts, hdf5.WithArrayDims([]uint64{uint64(typeParam(op.B))}))
 				}
 				ds, err := st.fw.CreateDataset(name, writerTypes[ti].dt, []uint64{uint64(n)}, opts...)
 				if err != nil {
